@@ -879,8 +879,8 @@ class IrcState(IrcCommandDispatcher, log.Firewalled):
         for item in items.split():
             if ircutils.isUserHostmask(item):
                 name = ircutils.nickFromHostmask(item)
-                self.nicksToHostmasks[name.lstrip('@%+&~!')] = \
-                        item.lstrip('@%+&~!')
+                strip = 1 if name[0] in '@%+&~!' else 0
+                self.nicksToHostmasks[name[strip:]] = item[strip:]
             else:
                 name = item
             c.addUser(name)
@@ -1727,9 +1727,10 @@ class Irc(IrcCommandDispatcher, log.Firewalled):
                 else:
                     assert False
             except scram.ScramException:
+                # The server answers with 906 (ERR_SASLABORTED), and do906
+                # tries the next mechanism.
                 self.sendMsg(ircmsgs.IrcMsg(command='AUTHENTICATE',
                     args=('*',)))
-                self.tryNextSaslMechanism()
         elif mechanism == 'plain':
             authstring = b'\0'.join([
                 self.sasl_username.encode('utf-8'),
@@ -1751,9 +1752,10 @@ class Irc(IrcCommandDispatcher, log.Firewalled):
                 string, crypto.ECDSA(crypto.Prehashed(crypto.SHA256())))
             self.sendSaslString(authstring)
         except (OSError, ValueError):
+            # The server answers with 906 (ERR_SASLABORTED), and do906 tries
+            # the next mechanism.
             self.sendMsg(ircmsgs.IrcMsg(command='AUTHENTICATE',
                 args=('*',)))
-            self.tryNextSaslMechanism()
 
     def _doAuthenticateScramFirst(self, mechanism):
         """Handle sending the client-first message of SCRAM auth."""
@@ -1764,7 +1766,8 @@ class Irc(IrcCommandDispatcher, log.Firewalled):
         if hash_name not in scram.HASH_FACTORIES:
             log.debug('%s: SCRAM hash %r not supported, aborting.',
                     self.network, hash_name)
-            self.tryNextSaslMechanism()
+            self.sendMsg(ircmsgs.IrcMsg(command='AUTHENTICATE',
+                args=('*',)))
             return
         authenticator = scram.SCRAMClientAuthenticator(hash_name,
                 channel_binding=False)
@@ -1787,9 +1790,10 @@ class Irc(IrcCommandDispatcher, log.Firewalled):
             res = self.sasl_scram_state['authenticator'] \
                     .finish(data)
         except scram.BadSuccessException as e:
-            log.warning('%s: SASL authentication failed with SCRAM error: %e',
+            log.warning('%s: SASL authentication failed with SCRAM error: %s',
                     self.network, e)
-            self.tryNextSaslMechanism()
+            self.sendMsg(ircmsgs.IrcMsg(command='AUTHENTICATE',
+                args=('*',)))
         else:
             self.sendSaslString(b'')
             self.sasl_scram_state['step'] = 'authenticated'
